@@ -1,16 +1,23 @@
 // C13 bounded witness search: random small IL functions in which every scalar is assigned in the entry block
 // (so no scalar is read before it is assigned), `constants()` of the real crate, and random concrete
-// executions; reports (a) panics, (b) errors, (c) a reported constant that a concrete execution contradicts.
+// executions; reports (a) panics, (b) errors, (c) a reported constant that a concrete execution contradicts,
+// (d) a Constants::eval answer that a concrete execution contradicts.
 // Purpose: look for an input on which the solver stops early with a stale state because
-// Constants::partial_cmp answers Equal for two different constants (argued unreachable in units/C13/meta.json).
+// Constants::partial_cmp answers Equal for two different constants (argued unreachable in units/C13/meta.json),
+// and for transfer / eval shortcuts that are wrong when one operand is unknown (loaded).
+// Domain: per function a width of 8 or 32 bits, 2-5 blocks, three scalars a, b, c all assigned a constant 0..2 in
+// the entry block, then 0-3 random instructions per block from: constant 0..2, `v = w + k`, copy, `v = w OP u` with
+// OP in {+, |, &, ^, *}, load (unknown value), nop; arbitrary edges incl. self-loops and unreachable blocks;
+// 8 random executions of up to 40 steps (a load yields 0..3 or a value with high bits set).
 // Output: one JSON line per disagreement (at most 3 per op) and a final summary line
 //   {"summary":true,"evaluations":N,"disagreements":M,"per_op":{...}}
 // Deterministic: the generator is seeded from the environment variable VERIF_SEED (default 0); the number of
 // functions is the first command-line argument (default 200000).
 // ops: "completes" (panic or Err on a def-before-use function), "constant" (a reported constant of an assigned
 // scalar differs from the value a concrete execution has immediately before the location executes; instruction,
-// edge and empty-block locations), "eval" (Constants::eval of an assignment's right-hand side returns a value that
-// differs from the value the expression has in that execution).
+// edge and empty-block locations), "eval" (Constants::eval - of an assignment's right-hand side, and in the first
+// four executions of a probe expression `w OP u` for a random operator and pair of assigned scalars at every
+// visited instruction location - returns a value that differs from the value the expression has in that execution).
 use falcon::analysis::constants::constants;
 use falcon::il::*;
 use std::collections::{BTreeMap, BTreeSet};
@@ -29,10 +36,15 @@ impl Rng {
 
 const NAMES: [&str; 3] = ["a", "b", "c"];
 
-#[derive(Clone, Debug)]
-enum Op { AssignConst(usize, u64), AssignAdd(usize, usize, u64), AssignCopy(usize, usize), AssignSum(usize, usize, usize), Load(usize), Nop }
+#[derive(Clone, Copy, Debug, PartialEq)]
+enum Bin { Add, Or, And, Xor, Mul }
+const BINS: [Bin; 5] = [Bin::Add, Bin::Or, Bin::And, Bin::Xor, Bin::Mul];
 
-fn gen(rng: &mut Rng) -> (Vec<Vec<Op>>, Vec<(usize, usize)>) {
+#[derive(Clone, Debug)]
+enum Op { AssignConst(usize, u64), AssignAdd(usize, usize, u64), AssignCopy(usize, usize), AssignBin(usize, usize, usize, Bin), Load(usize), Nop }
+
+fn gen(rng: &mut Rng) -> (usize, Vec<Vec<Op>>, Vec<(usize, usize)>) {
+    let bits = if rng.below(3) == 0 { 8 } else { 32 };
     let nblocks = 2 + rng.below(4) as usize;
     let mut blocks = Vec::new();
     for b in 0..nblocks {
@@ -44,12 +56,12 @@ fn gen(rng: &mut Rng) -> (Vec<Vec<Op>>, Vec<(usize, usize)>) {
             let v = rng.below(3) as usize;
             let w = rng.below(3) as usize;
             let u = rng.below(3) as usize;
-            ops.push(match rng.below(7) {
+            ops.push(match rng.below(10) {
                 0 | 1 => Op::AssignConst(v, rng.below(3)),
                 2 => Op::AssignAdd(v, w, rng.below(2)),
                 3 => Op::AssignCopy(v, w),
-                4 => Op::AssignSum(v, w, u),
-                5 => Op::Load(v),
+                4 | 5 | 6 => Op::AssignBin(v, w, u, BINS[rng.below(5) as usize]),
+                7 | 8 => Op::Load(v),
                 _ => Op::Nop,
             });
         }
@@ -61,23 +73,30 @@ fn gen(rng: &mut Rng) -> (Vec<Vec<Op>>, Vec<(usize, usize)>) {
         let t = rng.below(nblocks as u64) as usize;
         if !edges.contains(&(h, t)) { edges.push((h, t)); }
     }
-    (blocks, edges)
+    (bits, blocks, edges)
 }
 
-fn sc(v: usize) -> Scalar { scalar(NAMES[v], 32) }
-fn ex(v: usize) -> Expression { expr_scalar(NAMES[v], 32) }
+fn sc(v: usize, bits: usize) -> Scalar { scalar(NAMES[v], bits) }
+fn ex(v: usize, bits: usize) -> Expression { expr_scalar(NAMES[v], bits) }
+fn bin_expr(op: Bin, l: Expression, r: Expression) -> Expression {
+    match op { Bin::Add => Expression::add(l, r), Bin::Or => Expression::or(l, r), Bin::And => Expression::and(l, r), Bin::Xor => Expression::xor(l, r), Bin::Mul => Expression::mul(l, r) }.unwrap()
+}
+/// the witness's own semantics of the operators, modulo 2^bits
+fn bin_val(op: Bin, l: u64, r: u64, mask: u64) -> u64 {
+    (match op { Bin::Add => l.wrapping_add(r), Bin::Or => l | r, Bin::And => l & r, Bin::Xor => l ^ r, Bin::Mul => l.wrapping_mul(r) }) & mask
+}
 
-fn build(blocks: &[Vec<Op>], edges: &[(usize, usize)]) -> Function {
+fn build(bits: usize, blocks: &[Vec<Op>], edges: &[(usize, usize)]) -> Function {
     let mut cfg = ControlFlowGraph::new();
     for ops in blocks {
         let b = cfg.new_block().unwrap();
         for op in ops {
             match op {
-                Op::AssignConst(v, k) => b.assign(sc(*v), expr_const(*k, 32)),
-                Op::AssignAdd(v, w, k) => b.assign(sc(*v), Expression::add(ex(*w), expr_const(*k, 32)).unwrap()),
-                Op::AssignCopy(v, w) => b.assign(sc(*v), ex(*w)),
-                Op::AssignSum(v, w, u) => b.assign(sc(*v), Expression::add(ex(*w), ex(*u)).unwrap()),
-                Op::Load(v) => b.load(sc(*v), expr_const(0x1000, 32)),
+                Op::AssignConst(v, k) => b.assign(sc(*v, bits), expr_const(*k, bits)),
+                Op::AssignAdd(v, w, k) => b.assign(sc(*v, bits), Expression::add(ex(*w, bits), expr_const(*k, bits)).unwrap()),
+                Op::AssignCopy(v, w) => b.assign(sc(*v, bits), ex(*w, bits)),
+                Op::AssignBin(v, w, u, o) => b.assign(sc(*v, bits), bin_expr(*o, ex(*w, bits), ex(*u, bits))),
+                Op::Load(v) => b.load(sc(*v, bits), expr_const(0x10, bits)),
                 Op::Nop => b.nop(),
             }
         }
@@ -87,43 +106,52 @@ fn build(blocks: &[Vec<Op>], edges: &[(usize, usize)]) -> Function {
     Function::new(0, cfg)
 }
 
-fn json_str(s: String) -> String { s.replace('\\', "/").replace('"', "'").chars().take(600).collect() }
+/// text -> body of a JSON string
+fn json_str(s: String) -> String {
+    let mut o = String::new();
+    for c in s.chars().take(700) {
+        match c { '"' => o.push_str("\\\""), '\\' => o.push_str("\\\\"), c if (c as u32) < 0x20 => o.push(' '), c => o.push(c) }
+    }
+    o
+}
 
 fn main() {
     let n: u64 = std::env::args().nth(1).and_then(|s| s.parse().ok()).unwrap_or(200_000);
     let seed: u64 = std::env::var("VERIF_SEED").ok().and_then(|s| s.trim().parse().ok()).unwrap_or(0);
     panic::set_hook(Box::new(|_| {}));
-    // xorshift needs a non-zero state; seed 0 gives the stream the unit's evidence was recorded with
+    // xorshift needs a non-zero state
     let mut state = 0x9E3779B97F4A7C15u64 ^ seed.wrapping_mul(0xD1B5_4A32_D192_ED03);
     if state == 0 { state = 0x9E3779B97F4A7C15; }
     let mut rng = Rng(state);
     let mut per_op: BTreeMap<String, u64> = BTreeMap::new();
     let (mut ok, mut checks, mut found, mut missing) = (0u64, 0u64, 0u64, 0u64);
     macro_rules! report {
-        ($op:expr, $it:expr, $blocks:expr, $edges:expr, $what:expr, $got:expr, $exp:expr) => {{
+        ($op:expr, $it:expr, $bits:expr, $blocks:expr, $edges:expr, $what:expr, $got:expr, $exp:expr) => {{
             let c = per_op.entry($op.to_string()).or_insert(0);
             *c += 1;
             if *c <= 3 {
-                println!("{{\"witness\":true,\"op\":\"{}\",\"seed\":{},\"function\":{},\"blocks\":\"{}\",\"edges\":\"{:?}\",\"query\":\"{}\",\"got\":\"{}\",\"expected\":\"{}\"}}",
-                    $op, seed, $it, json_str(format!("{:?}", $blocks)), $edges, json_str($what), json_str(format!("{}", $got)), json_str(format!("{}", $exp)));
+                println!("{{\"witness\":true,\"op\":\"{}\",\"seed\":{},\"function\":{},\"bits\":{},\"blocks\":\"{}\",\"edges\":\"{:?}\",\"query\":\"{}\",\"got\":\"{}\",\"expected\":\"{}\"}}",
+                    $op, seed, $it, $bits, json_str(format!("{:?}", $blocks)), $edges, json_str($what), json_str(format!("{}", $got)), json_str(format!("{}", $exp)));
             }
             found += 1;
         }};
     }
     for it in 0..n {
-        let (blocks, edges) = gen(&mut rng);
-        let f = build(&blocks, &edges);
+        let (bits, blocks, edges) = gen(&mut rng);
+        let mask: u64 = (1u64 << bits) - 1;
+        let f = build(bits, &blocks, &edges);
         let f2 = f.clone();
         checks += 1;
         let map = match panic::catch_unwind(move || constants(&f2)) {
-            Err(_) => { report!("completes", it, blocks, edges, "constants(function)".to_string(), "panic", "Ok(..)"); continue; }
-            Ok(Err(e)) => { report!("completes", it, blocks, edges, "constants(function)".to_string(), format!("Err({})", e), "Ok(..)"); continue; }
+            Err(_) => { report!("completes", it, bits, blocks, edges, "constants(function)".to_string(), "panic", "Ok(..)"); continue; }
+            Ok(Err(e)) => { report!("completes", it, bits, blocks, edges, "constants(function)".to_string(), format!("Err({})", e), "Ok(..)"); continue; }
             Ok(Ok(m)) => m,
         };
         ok += 1;
+        // one report per (function, query)
         let mut bad: BTreeSet<String> = BTreeSet::new();
         // random concrete executions: the store maps the three scalars to values; a Load yields a random value
-        for _ in 0..8 {
+        for run in 0..8 {
             let mut store: [u64; 3] = [rng.below(5) + 10, rng.below(5) + 10, rng.below(5) + 10];
             let mut b = 0usize;
             let mut steps = 0;
@@ -138,15 +166,14 @@ fn main() {
                             Some(c) => {
                                 for v in 0..3 {
                                     if !assigned[v] { continue; }
-                                    let got = panic::catch_unwind(panic::AssertUnwindSafe(|| c.scalar(&sc(v)).map(|k| k.value_u64())));
+                                    let got = panic::catch_unwind(panic::AssertUnwindSafe(|| c.scalar(&sc(v, bits)).map(|k| k.value_u64())));
                                     checks += 1;
                                     match got {
                                         Ok(None) => {}
-                                        Ok(Some(k)) if k == Some(store[v] & 0xffff_ffff) => {}
+                                        Ok(Some(k)) if k == Some(store[v]) => {}
                                         Ok(Some(k)) => { let q = format!("constants()[{}].scalar({})", loc, NAMES[v]);
-                                            // one report per (function, location, scalar)
-                                            if bad.insert(q.clone()) { report!("constant", it, blocks, edges, q, format!("{:?}", k), format!("no constant, or {} (an execution has that value there)", store[v])) } }
-                                        Err(_) => report!("constant", it, blocks, edges, format!("constants()[{}].scalar({})", loc, NAMES[v]), "panic", "no panic"),
+                                            if bad.insert(q.clone()) { report!("constant", it, bits, blocks, edges, q, format!("{:?}", k), format!("no constant, or {} (an execution has that value there)", store[v])) } }
+                                        Err(_) => report!("constant", it, bits, blocks, edges, format!("constants()[{}].scalar({})", loc, NAMES[v]), "panic", "no panic"),
                                     }
                                 }
                                 Some(c)
@@ -155,39 +182,50 @@ fn main() {
                         }
                     }};
                 }
+                // Constants::eval: declines, or the value the expression has in this execution
+                macro_rules! check_eval {
+                    ($c:expr, $b:expr, $i:expr, $e:expr, $val:expr) => {{
+                        checks += 1;
+                        let e: Expression = $e;
+                        match panic::catch_unwind(panic::AssertUnwindSafe(|| $c.eval(&e).map(|k| k.value_u64()))) {
+                            Ok(None) => {}
+                            Ok(Some(k)) if k == Some($val) => {}
+                            Ok(Some(k)) => { let q = format!("constants()[block {} instruction {}].eval({})", $b, $i, e);
+                                if bad.insert(q.clone()) { report!("eval", it, bits, blocks, edges, q, format!("{:?}", k), format!("declines, or {} (the value in an execution with a={} b={} c={})", $val, store[0], store[1], store[2])) } }
+                            Err(_) => report!("eval", it, bits, blocks, edges, format!("constants()[block {} instruction {}].eval({})", $b, $i, e), "panic", "declines or a value"),
+                        }
+                    }};
+                }
                 if blocks[b].is_empty() { check_at!(FunctionLocation::EmptyBlock(b)); }
                 for (i, op) in blocks[b].iter().enumerate() {
                     let c = check_at!(FunctionLocation::Instruction(b, i));
-                    // Constants::eval on the right-hand side: declines, or the value it has in this execution
-                    let rhs: Option<(Expression, u64, Vec<usize>)> = match op {
-                        Op::AssignConst(_, k) => Some((expr_const(*k, 32), *k, vec![])),
-                        Op::AssignAdd(_, w, k) => Some((Expression::add(ex(*w), expr_const(*k, 32)).unwrap(), (store[*w] + *k) & 0xffff_ffff, vec![*w])),
-                        Op::AssignCopy(_, w) => Some((ex(*w), store[*w], vec![*w])),
-                        Op::AssignSum(_, w, u) => Some((Expression::add(ex(*w), ex(*u)).unwrap(), (store[*w] + store[*u]) & 0xffff_ffff, vec![*w, *u])),
-                        Op::Load(_) | Op::Nop => None,
-                    };
-                    if let (Some(c), Some((e, val, reads))) = (c, rhs) {
-                        if reads.iter().all(|r| assigned[*r]) {
-                            checks += 1;
-                            match panic::catch_unwind(panic::AssertUnwindSafe(|| c.eval(&e).map(|k| k.value_u64()))) {
-                                Ok(None) => {}
-                                Ok(Some(k)) if k == Some(val) => {}
-                                Ok(Some(k)) => { let q = format!("constants()[block {} instruction {}].eval({})", b, i, e);
-                                    if bad.insert(q.clone()) { report!("eval", it, blocks, edges, q, format!("{:?}", k), format!("declines, or {} (the value in an execution)", val)) } }
-                                Err(_) => report!("eval", it, blocks, edges, format!("constants()[block {} instruction {}].eval({})", b, i, e), "panic", "declines or a value"),
-                            }
+                    if let Some(c) = c {
+                        // the instruction's own right-hand side
+                        let rhs: Option<(Expression, u64, Vec<usize>)> = match op {
+                            Op::AssignConst(_, k) => Some((expr_const(*k, bits), *k, vec![])),
+                            Op::AssignAdd(_, w, k) => Some((Expression::add(ex(*w, bits), expr_const(*k, bits)).unwrap(), (store[*w] + *k) & mask, vec![*w])),
+                            Op::AssignCopy(_, w) => Some((ex(*w, bits), store[*w], vec![*w])),
+                            Op::AssignBin(_, w, u, o) => Some((bin_expr(*o, ex(*w, bits), ex(*u, bits)), bin_val(*o, store[*w], store[*u], mask), vec![*w, *u])),
+                            Op::Load(_) | Op::Nop => None,
+                        };
+                        if let Some((e, val, reads)) = rhs { if reads.iter().all(|r| assigned[*r]) { check_eval!(c, b, i, e, val); } }
+                        // probe (first four executions): a random operator on a random pair of assigned scalars
+                        if run < 4 {
+                            let (w, u, o) = (rng.below(3) as usize, rng.below(3) as usize, BINS[rng.below(5) as usize]);
+                            if assigned[w] && assigned[u] { check_eval!(c, b, i, bin_expr(o, ex(w, bits), ex(u, bits)), bin_val(o, store[w], store[u], mask)); }
                         }
                     }
                     match op {
-                        Op::AssignConst(v, _) | Op::AssignAdd(v, _, _) | Op::AssignCopy(v, _) | Op::AssignSum(v, _, _) | Op::Load(v) => assigned[*v] = true,
+                        Op::AssignConst(v, _) | Op::AssignAdd(v, _, _) | Op::AssignCopy(v, _) | Op::AssignBin(v, _, _, _) | Op::Load(v) => assigned[*v] = true,
                         Op::Nop => {}
                     }
                     match op {
                         Op::AssignConst(v, k) => store[*v] = *k,
-                        Op::AssignAdd(v, w, k) => store[*v] = (store[*w] + *k) & 0xffff_ffff,
+                        Op::AssignAdd(v, w, k) => store[*v] = (store[*w] + *k) & mask,
                         Op::AssignCopy(v, w) => store[*v] = store[*w],
-                        Op::AssignSum(v, w, u) => store[*v] = (store[*w] + store[*u]) & 0xffff_ffff,
-                        Op::Load(v) => store[*v] = rng.below(4),
+                        Op::AssignBin(v, w, u, o) => store[*v] = bin_val(*o, store[*w], store[*u], mask),
+                        // small values (so that they collide with the constants 0..2) or a value with high bits set
+                        Op::Load(v) => store[*v] = if rng.below(4) == 0 { (0x80 + rng.below(0x70)) & mask } else { rng.below(4) },
                         Op::Nop => {}
                     }
                     steps += 1;
